@@ -812,6 +812,21 @@ Proof.
     + reflexivity.
 Qed.
 
+Lemma server_loop_auth_step e mechs m name p0 d0 rest :
+  lookup_mech mechs name = Some m -> decode_server p0 = Some d0 ->
+  server_loop e mechs None 0 0 (SAuth name (Some p0) :: rest) =
+  used1 (let '(r, evs, pk') := do_step e Server (mkCreds [] [] []) m 0 0 0 d0 in
+         add_evs evs
+           (match s_err r with
+            | MNone =>
+                if s_more r
+                then add_out [OChallenge (enc_payload (s_resp r))] (server_loop e mechs (Some (m, 1)) 1 pk' rest)
+                else add_out [OSuccess (b64_encode (s_resp r))] done
+            | MAuthn => add_out [OFailure cond_not_authorized] (fail EMechAuthn)
+            | MOther => fail EMechOther
+            end)).
+Proof. intros L D. cbn [server_loop server_dispatch]. rewrite L, D. reflexivity. Qed.
+
 Definition server_honest_statement : Prop := forall e mechs m name p0 ps,
   lookup_mech mechs name = Some m -> m_kind m = KScript ->
   s_decodable p0 -> Forall s_decodable ps ->
@@ -822,15 +837,15 @@ Definition server_honest_statement : Prop := forall e mechs m name p0 ps,
 Lemma server_honest : server_honest_statement.
 Proof.
   intros e mechs m name p0 ps L K D0 Hd Hmore He Hm. unfold negotiate_server.
-  (* the first element selects m; from then on the loop is the one of the lemma *)
+  destruct D0 as [d0 D0]. cbn [map].
+  rewrite (server_loop_auth_step _ _ _ _ _ _ _ L D0).
   destruct ps as [|q ps].
-  - destruct D0 as [d0 D0]. simpl in He, Hm.
-    cbn [map server_loop server_dispatch]. rewrite L, D0, (do_step_script _ _ _ _ _ _ _ _ K He).
+  - simpl in He, Hm. rewrite (do_step_script _ _ _ _ _ _ _ _ K He).
     rewrite authn_used1, authn_add_evs, He, Hm. reflexivity.
-  - destruct D0 as [d0 D0]. inversion Hd as [|? ? Dq Hd']; subst.
+  - inversion Hd as [|? ? Dq Hd']; subst.
     destruct (Hmore 0 ltac:(simpl; lia)) as [E0 M0].
-    cbn [map server_loop server_dispatch]. rewrite L, D0, (do_step_script _ _ _ _ _ _ _ _ K E0).
-    rewrite authn_used1, authn_add_evs, E0, M0, authn_add_out.
+    rewrite (do_step_script _ _ _ _ _ _ _ _ K E0).
+    rewrite authn_used1, authn_add_evs, E0, M0, authn_add_out. cbn [map].
     apply (server_loop_honest e mechs m K ps 1 0 1 Hd') with (p0 := q).
     + intros i Hi. apply (Hmore (S i)). simpl. lia.
     + exact He.
